@@ -209,6 +209,19 @@ def run(ctx, replay=None):
                 fh.write(open(f).read())
         conc_files.append(cat)
         ctx.cov["traces_validated_against_impl"] += len(files)
+    # the CalDAV / CardDAV handlers and the principal helper under the same regime: every concurrent answer equals the answer alone
+    davx = ctx.go_build("davxrec", race=True)
+    for i, (cl, ops, procs) in enumerate([(8, 60, 4), (16, 30, 16)] if q else [(2, 200, 1), (4, 150, 2), (8, 100, 4), (16, 60, 16), (32, 40, 16)]):
+        of = ctx.path("conc", "davx-%d.ndjson" % i)
+        info, race, err = _run_rec(ctx, [davx, "-out", of, "-clients", str(cl), "-ops", str(ops), "-procs", str(procs)])
+        if race:
+            races.append(("caldav/carddav/principal handlers clients=%d GOMAXPROCS=%d" % (cl, procs), err))
+        rows = vlib.read_ndjson(of)
+        nconc += len(rows)
+        for r in rows:
+            if not r["same"]:
+                add("concurrent %s %s answers differently than alone (st=%d alone=%d)" % (r["srv"], r["m"], r["st"], r["alone"]),
+                    {"case": {"kind": "davx", "clients": cl, "procs": procs}, "observed": r})
     rej, total = ctx.judge("DavJudge", conc_files)
     for f, ln, s in rej:
         obs = json.loads(open(f).read().splitlines()[ln - 1])
